@@ -13,6 +13,7 @@ CONSTANTS
   Orgs = {0}
   Fixed = FALSE
   ThrowErrors = FALSE
+  ThrowMaxPass = 3
   WithExtra = FALSE
   AllowIllFormed = FALSE
   Complete = FALSE
